@@ -156,6 +156,44 @@ class FcdWorld(au.CutWorld):
             return Str(("suffix",))
         raise AnalysisError("slice with %s" % r.ty)
 
+    def str_contains(self, m, st, s, pred):
+        r = self.str_find(m, st, s, pred)
+        return ip.boolean(isinstance(r, Adt) and r.variant == 1)
+
+    def str_replace(self, m, st, s, pred, to):
+        """input.replace(p, lit) after contains(p) held: every character p rejects is copied as it is — so is the
+        whole prefix before the first match — and the rest is the loop  if p(c) { push_str(lit) } else { push(c) }."""
+        if not (isinstance(s, Str) and s.tag == ("input",)):
+            raise AnalysisError("replace on %r, not on the rule's own argument" % (s,))
+        if st.ext.get("scenario") == "none" or self.trig is None:
+            raise AnalysisError("str::replace that is not guarded by a search for the same pattern")
+        trig = set()
+        for cls in self.alphabet:
+            v = self.eval_pred(m, st, pred, cls)
+            if not isinstance(v, I):
+                raise AnalysisError("replace pattern yields %r for class %s" % (v, cls))
+            if v.v:
+                trig.add(cls)
+        if trig != self.trig:
+            raise AnalysisError("str::replace rewrites classes %s but is guarded by a search for classes %s" % (sorted(trig), sorted(self.trig)))
+        body = self.prog.bodies["pv::synth::str_replace_pred"]
+        return (ip.INLINE, body, [Opq("buf", ("prefix",)), Opq("chars", (Str(("suffix",)),)), pred, to], None)
+
+    def replace_range(self, m, st, s, rng, content, callee):
+        """input.replace_range(pos.., mapped rest): the unchanged prefix stays where it is, in the input's own
+        buffer, and the mapped rest replaces everything from find's position on."""
+        if self.str_slice(m, st, s, rng, callee) != Str(("suffix",)):
+            raise DisciplineError("replace_range replaces the unchanged prefix: only the part of the string from find's position on may be rewritten")
+        if not (isinstance(content, Str) and content.tag == ("mapped-suffix",)):
+            raise DisciplineError("the rest of the string is replaced by %r, not by its mapped form" % (content,))
+        return Opq("buf", ("prefix",))
+
+    def str_variant(self, st, v, rv):
+        fv = getattr(self, "fixed_variant", None)
+        if fv is not None:
+            return fv
+        return au.CutWorld.str_variant(self, st, v, rv)
+
     def split_at(self, m, st, s, mid):
         if not (isinstance(s, Str) and s.tag == ("input",)):
             raise AnalysisError("split_at on %r, not on the rule's own argument" % (s,))
@@ -181,6 +219,11 @@ class FcdWorld(au.CutWorld):
         b = m.load(st, bufref.loc) if isinstance(bufref, Ref) else bufref
         if isinstance(b, Opq) and b.kind == "buf" and b.data == ("empty",) and isinstance(content, Str) and content.tag == ("prefix",) and isinstance(bufref, Ref):
             m.store(st, bufref.loc, Opq("buf", ("prefix",)))
+            return ip.UNIT
+        if isinstance(b, Opq) and b.kind == "buf" and b.data != ("empty",) and isinstance(content, Str) and isinstance(content.tag, tuple) and content.tag[0] == "lit" and isinstance(content.tag[1], str):
+            # a literal appended to a started buffer: its characters, one by one
+            for ch in content.tag[1]:
+                self.buf_push(m, st, bufref, I(ord(ch), "char"))
             return ip.UNIT
         raise DisciplineError("push_str(%r) into %r: only the unchanged prefix may be copied wholesale, and first" % (content, b))
 
@@ -257,8 +300,60 @@ def result_desc(prog):
     return f
 
 
+class _VariantDependent(Exception):
+    """The function's paths differ with the Cow variant of its argument."""
+
+
+def _letter_table(info, alphabet):
+    per, q0, end_ev, end_res = letter_outputs(info["aut"], alphabet)
+    return {a: (per[a][0], per[a][1] == q0, per[a][2]) for a in alphabet}, end_ev, end_res, behavioural_states(info["aut"], alphabet)
+
+
 def analyse(prog, rep, rule, fn_key, world, args=None):
-    """Returns dict(trig, none_result, aut) or None."""
+    """Returns dict(trig, none_result, aut) or None.
+    A function that branches on the Cow variant of its argument (to reuse an owned buffer) is analysed once
+    per variant; the two denotations must be the same, and then either stands for the function."""
+    world.fixed_variant = None
+    try:
+        return _analyse_once(prog, rep, rule, fn_key, world, args)
+    except _VariantDependent:
+        pass
+    infos = []
+    for v in (0, 1):
+        world.fixed_variant = v
+        world.trig = None
+        try:
+            info = _analyse_once(prog, rep, rule, fn_key, world, args)
+        finally:
+            world.fixed_variant = None
+        if info is None:
+            return None
+        infos.append(info)
+    b = infos[0]["body"]
+    diff = []
+    if infos[0]["trig"] != infos[1]["trig"]:
+        diff.append("the mapping is triggered by classes %s for a borrowed input and %s for an owned one" % (sorted(infos[0]["trig"]), sorted(infos[1]["trig"])))
+    if (infos[0]["none_result"], infos[0]["none_events"]) != (infos[1]["none_result"], infos[1]["none_events"]):
+        diff.append("without a trigger the result is %s (borrowed) / %s (owned)" % (infos[0]["none_result"], infos[1]["none_result"]))
+    try:
+        t0, t1 = _letter_table(infos[0], world.alphabet), _letter_table(infos[1], world.alphabet)
+        if t0 != t1:
+            for a in world.alphabet:
+                if t0[0][a] != t1[0][a]:
+                    diff.append("class %s is mapped to %s (borrowed) / %s (owned)" % (a, list(t0[0][a][0]), list(t1[0][a][0])))
+            if t0[1:] != t1[1:]:
+                diff.append("end of input / loop states differ: %s vs %s" % (t0[1:], t1[1:]))
+    except AnalysisError as e:
+        rep.analysis_error(rule, fn_key, e, b.where())
+        return None
+    rep.ob(rule, "a borrowed and an owned input are mapped alike", not diff, "; ".join(diff[:3]), b.where(), key="%s|cow-variant" % rule)
+    if diff:
+        return None
+    infos[0]["variants"] = 2
+    return infos[0]
+
+
+def _analyse_once(prog, rep, rule, fn_key, world, args=None):
     b = prog.body(fn_key)
     if b is None:
         rep.ob(rule, fn_key, False, "function not found")
@@ -271,6 +366,8 @@ def analyse(prog, rep, rule, fn_key, world, args=None):
         st.ext["scenario"] = "none"
         st.ext["letter"] = None
         outs = [o for o in m.run(st) if o.kind != "closed"]
+        if len(outs) != 1 and world.fixed_variant is None and any("cow-variant" in repr(o.state.log) for o in outs):
+            raise _VariantDependent()
         if len(outs) != 1 or outs[0].kind != "return":
             raise AnalysisError("the no-trigger branch has %d outcomes" % len(outs))
         none_res = result_desc(prog)(outs[0])
@@ -298,6 +395,8 @@ def analyse(prog, rep, rule, fn_key, world, args=None):
         rep.ob(rule, "prefix copied verbatim, suffix mapped, split at find's position", False, str(e), b.where(), key="%s|split" % rule)
         return None
     except AnalysisError as e:
+        if "cow-variant" in str(e) and world.fixed_variant is None:
+            raise _VariantDependent()
         if "designated input" in str(e):
             # not find-then-rebuild: try the single-pass shape (one loop over the whole input, output allocated
             # lazily at the first character that changes)
